@@ -624,78 +624,186 @@ func madeWith(v ssa.Value, what string) bool {
 	return false
 }
 
+// slicerOf finds, in a transfer function or one of its function literals, the code that cuts the transfer into
+// requests: the function that calls dispatchRequest with a READ or WRITE packet literal.  Found by what it does, so
+// that it does not matter which literal of the outer function it is or whether it is a literal at all.
+func slicerOf(outer *ssa.Function) (fn *ssa.Function, lit *ssa.Alloc, disp *ssa.Call) {
+	cands := append([]*ssa.Function{outer}, outer.AnonFuncs...)
+	for _, f := range cands {
+		var d *ssa.Call
+		eachInstr(f, func(in ssa.Instruction) {
+			if call, ok := in.(*ssa.Call); ok && calleeName(&call.Call) == "dispatchRequest" {
+				d = call
+			}
+		})
+		if d == nil {
+			continue
+		}
+		for _, typ := range []string{"sshFxpReadPacket", "sshFxpWritePacket"} {
+			for _, a := range literalsOf(f, typ) {
+				return f, a, d
+			}
+		}
+	}
+	return nil, nil, nil
+}
+
+// litFieldWhere returns the value stored into the one field of the literal whose type satisfies pred (nil when no field
+// or several fields do): the parts of a work item are told apart by their types, not by their names.
+func litFieldWhere(a *ssa.Alloc, pred func(types.Type) bool) ssa.Value {
+	st := derefStruct(a.Type())
+	if st == nil {
+		return nil
+	}
+	name, n := "", 0
+	for i := 0; i < st.NumFields(); i++ {
+		if pred(st.Field(i).Type()) {
+			name = st.Field(i).Name()
+			n++
+		}
+	}
+	if n != 1 {
+		return nil
+	}
+	return litField(a, name)
+}
+
+func hasFieldWhere(st *types.Struct, pred func(types.Type) bool) bool {
+	if st == nil {
+		return false
+	}
+	for i := 0; i < st.NumFields(); i++ {
+		if pred(st.Field(i).Type()) {
+			return true
+		}
+	}
+	return false
+}
+
+func isBasicKind(k types.BasicKind) func(types.Type) bool {
+	return func(t types.Type) bool {
+		b, ok := t.Underlying().(*types.Basic)
+		return ok && b.Kind() == k
+	}
+}
+
+func isChanOf(elem string) func(types.Type) bool {
+	return func(t types.Type) bool {
+		ch, ok := t.Underlying().(*types.Chan)
+		return ok && typeName(ch.Elem()) == elem
+	}
+}
+
+func isByteSlice(t types.Type) bool {
+	sl, ok := t.Underlying().(*types.Slice)
+	if !ok {
+		return false
+	}
+	b, ok := sl.Elem().Underlying().(*types.Basic)
+	return ok && b.Kind() == types.Byte
+}
+
 // R2: the work item handed to the workers agrees with the request of the same iteration.
 func runC01R2(c *Ctx) {
 	p := c.P
 	pos := func(in ssa.Instruction) string { return p.Pos(in.Pos()) }
-	for _, name := range []string{"(*File).readAt$1", "(*File).WriteTo$2", "(*File).writeAtConcurrent$1", "(*File).readFromWithConcurrency$1"} {
-		fn := p.Func(name)
-		if fn == nil {
-			c.missing("R2", name)
+	for _, outerName := range []string{"(*File).readAt", "(*File).WriteTo", "(*File).writeAtConcurrent", "(*File).readFromWithConcurrency"} {
+		outer := p.Func(outerName)
+		if outer == nil {
+			c.missing("R2", outerName)
 			continue
 		}
-		var lit *ssa.Alloc
-		for _, typ := range []string{"sshFxpReadPacket", "sshFxpWritePacket"} {
-			for _, a := range literalsOf(fn, typ) {
-				lit = a
-			}
+		fn, lit, disp := slicerOf(outer)
+		name := outerName + " slicer"
+		if fn == nil {
+			c.und("R2", name+" work item", p.Pos(outer.Pos()), "cannot find the code that dispatches the chunk requests")
+			continue
 		}
-		// the work literal: a local struct named work/readWork
+		c.looked(fnName(fn))
+		// the work item: the struct value handed over on a channel in the slicer (the element type of a channel it
+		// sends on), built in the slicer
 		var work *ssa.Alloc
+		sent := map[types.Type]bool{}
 		eachInstr(fn, func(in ssa.Instruction) {
-			if a, ok := in.(*ssa.Alloc); ok {
-				if n := namedOf(a.Type()); n != nil && (n.Obj().Name() == "work" || n.Obj().Name() == "readWork") {
-					work = a
+			switch x := in.(type) {
+			case *ssa.Send:
+				sent[x.X.Type()] = true
+			case *ssa.Select:
+				for _, st := range x.States {
+					if st.Dir == types.SendOnly && st.Send != nil {
+						sent[st.Send.Type()] = true
+					}
 				}
 			}
 		})
-		if lit == nil || work == nil {
-			c.und("R2", name+" work item", p.Pos(fn.Pos()), "cannot find the request literal and the work item")
+		eachInstr(fn, func(in ssa.Instruction) {
+			if a, ok := in.(*ssa.Alloc); ok && a != lit {
+				if _, isStruct := derefType(a.Type()).Underlying().(*types.Struct); isStruct {
+					for t := range sent {
+						// the work item is the one that carries the channel its reply arrives on
+						if types.Identical(t, derefType(a.Type())) && hasFieldWhere(derefStruct(a.Type()), isChanOf("result")) {
+							work = a
+						}
+					}
+				}
+			}
+		})
+		if work == nil {
+			c.und("R2", name+" work item", p.Pos(fn.Pos()), "cannot find the work item that is handed to the workers")
 			continue
 		}
 		// id
-		idReq, idWork := litField(lit, "ID"), litField(work, "id")
+		idReq, idWork := litField(lit, "ID"), litFieldWhere(work, isBasicKind(types.Uint32))
 		c.check(idReq != nil && idWork != nil && sameValue(idReq, idWork), "R2", name+" id", pos(work), "work item carries the id of the request just dispatched", "the work item's id is not the id of the dispatched request: the worker checks the reply against the wrong id")
 		// offset
-		offReq, offWork := litField(lit, "Offset"), litField(work, "off")
+		offReq, offWork := litField(lit, "Offset"), litFieldWhere(work, isBasicKind(types.Int64))
 		c.check(offReq != nil && offWork != nil && affineOf(offReq).equal(affineOf(offWork)), "R2", name+" offset", pos(work), "work item carries the request's offset", "the work item's offset differs from the request's: errors and data are attributed to the wrong position")
 		// result channel: the one passed to dispatchRequest
-		var disp *ssa.Call
-		eachInstr(fn, func(in ssa.Instruction) {
-			if call, ok := in.(*ssa.Call); ok && calleeName(&call.Call) == "dispatchRequest" {
-				disp = call
-			}
-		})
-		resWork := litField(work, "res")
+		resWork := litFieldWhere(work, isChanOf("result"))
 		c.check(disp != nil && resWork != nil && sameValue(disp.Call.Args[1], resWork), "R2", name+" result channel", pos(work), "work item waits on the channel the request was registered with", "the work item's channel is not the one registered for the request")
 		// read destination buffer: same length as requested
-		if bWork := litField(work, "b"); bWork != nil {
+		if bWork := litFieldWhere(work, isByteSlice); bWork != nil {
 			lenV := litField(lit, "Len")
 			c.check(lenV != nil && affineOf(lenV).equal(chunkLen(bWork)), "R2", name+" buffer", pos(work), "destination buffer has the requested length", "the destination buffer's length differs from the length requested")
 		}
 		// the hand-off follows the dispatch in the same iteration
 		if disp != nil {
 			var sel ssa.Instruction
+			wt := derefType(work.Type())
 			eachInstr(fn, func(in ssa.Instruction) {
-				if s, ok := in.(*ssa.Select); ok {
-					sel = s
+				switch x := in.(type) {
+				case *ssa.Select:
+					for _, st := range x.States {
+						if st.Dir == types.SendOnly && st.Send != nil && types.Identical(st.Send.Type(), wt) {
+							sel = in
+						}
+					}
+				case *ssa.Send:
+					if types.Identical(x.X.Type(), wt) {
+						sel = in
+					}
 				}
 			})
 			c.check(sel != nil && dominates(disp, sel), "R2", name+" dispatch before hand-off", pos(disp), "request is sent before its work item is queued", "a work item can be queued for a request that was not dispatched")
 		}
 	}
 	// readAt worker copies into its item's buffer; WriteTo worker into a pool buffer of chunk size
-	if w := p.Func("(*File).readAt$2"); w != nil {
-		good := false
-		eachInstr(w, func(in ssa.Instruction) {
-			if call, ok := in.(*ssa.Call); ok && builtinName(&call.Call) == "copy" {
-				k := valKey(call.Call.Args[0])
-				if strings.HasSuffix(k, ".b") {
-					good = true
+	if ra := p.Func("(*File).readAt"); ra != nil {
+		// the worker: the function literal of readAt that copies reply data
+		n := 0
+		for _, w := range ra.AnonFuncs {
+			for _, in := range anyCallsWhere(w, func(cc *ssa.CallCommon) bool { return builtinName(cc) == "copy" }) {
+				n++
+				good := false
+				for _, l := range leavesOf(callOf(in).Args[0]) {
+					if l.Kind == leafFieldLoad && isByteSlice(l.V.Type()) && l.Base != nil && hasFieldWhere(derefStruct(l.Base.Type()), isChanOf("result")) {
+						good = true
+					}
 				}
+				c.check(good, "R2", "readAt worker destination", p.Pos(in.Pos()), "reply data is copied into the work item's own buffer", "the worker does not copy the reply into its work item's buffer")
 			}
-		})
-		c.check(good, "R2", "readAt worker destination", p.Pos(w.Pos()), "reply data is copied into the work item's own buffer", "the worker does not copy the reply into its work item's buffer")
+		}
+		c.check(n >= 1, "R2", "readAt worker copies reply data", p.Pos(ra.Pos()), fmt.Sprintf("%d copies", n), "no worker of readAt copies reply data")
 	}
 	if wt := p.Func("(*File).WriteTo"); wt != nil {
 		// pool := newBufPool(concurrency, chunkSize) with chunkSize == Len requested
